@@ -1,5 +1,7 @@
 import LitexModel.Codes.Code8b10b
 import LitexModel.Codes.Stream8b10b
+import LitexModel.Codes.Regen8b10b
+import LitexModel.Codes.Build8b10b
 import LitexModel.Stream.Num
 open Litex Litex.Driver Litex.Stream Litex.Code8b10b
 
@@ -71,9 +73,90 @@ def openMachine (args : List String) (hin hout : IO.FS.Stream) : Option (IO Bool
 /-- Pure calls:
     `enc1 d k disp lsb`  → `output disp_out`   (SingleEncoder: stage 1 clocked with d,k; stage 2 on disp)
     `dec1 input lsb`     → `d k invalid`       (Decoder one cycle after `input`)
-    `ksyms`              → the 12 control symbols of `Sym.Valid` -/
+    `ksyms`              → the 12 control symbols of `Sym.Valid`
+    `nettab name i`      → entry `i` of the regenerated netlist table `name` (as the Lean side reads it)
+    `modtab name i`      → the model's entry in the same layout (`encEntry`, `decEntry`, `resetEntry`, `chain2Entry`)
+    `chainprobe n lane d k c` → `chainProbe` (model `Encoder(n, msb)` after the chain probe, packed)
+    `chaintab n`         → `chainProbeTable n`
+    `kd x y`             → `symK x y` `symD x y`
+    `disparity w n`      → `disparity w n` (build-time helper)
+    `revflip nbits w0 f0 w1 f1 …` → `reverseTableFlip` (`err` for the ValueError/IndexError cases)
+    `revtab nbits w0 w1 …` → `reverseTable`
+    `iscode w`           → `isCodeWord w` (0/1)
+    `commas disp d0 k0 d1 k1 …` → number of, then bit positions of the windows of `serial (encodeSeq disp syms)` equal to a comma -/
+def netTable (name : String) : Option (List Nat) :=
+  match name with
+  | "encMsb" => some Netlist.encMsb
+  | "encLsb" => some Netlist.encLsb
+  | "decMsb" => some Netlist.decMsb
+  | "decLsb" => some Netlist.decLsb
+  | "encReset" => some Netlist.encReset
+  | "chain2" => some Netlist.chain2
+  | "chain3" => some Netlist.chain3
+  | "chain4" => some Netlist.chain4
+  | _ => none
+
+def modEntry (name : String) (i : Nat) : Option Nat :=
+  match name with
+  | "encMsb" => some (encEntry false i)
+  | "encLsb" => some (encEntry true i)
+  | "decMsb" => some (decEntry false i)
+  | "decLsb" => some (decEntry true i)
+  | "encReset" => some (resetEntry (i == 1))
+  | "chain2" => some (chain2Entry i)
+  | "chain3" => (chainProbeTable 3)[i]?
+  | "chain4" => (chainProbeTable 4)[i]?
+  | _ => none
+
+/-- `[w0, f0, w1, f1, …]` → `(word, flip)` pairs. -/
+def pairUpN : List Nat → List (Nat × Bool)
+  | w :: f :: rest => (w, f != 0) :: pairUpN rest
+  | _ => []
+
+/-- Positions of the 7-bit windows equal to `0011111` or `1100000`. -/
+def commaPositions (bits : List Bool) : List Nat :=
+  (List.range bits.length).filter fun i =>
+    [false, false, true, true, true, true, true].isPrefixOf (bits.drop i) ||
+    [true, true, false, false, false, false, false].isPrefixOf (bits.drop i)
+
 def call (args : List String) : Option String :=
   match args with
+  | ["nettab", name, i] =>
+    match netTable name, i.toNat? with
+    | some t, some i => some (match t[i]? with | some v => toString v | none => "none")
+    | _, _ => none
+  | ["modtab", name, i] => i.toNat?.bind fun i => (modEntry name i).map toString
+  | ["chainprobe", n, lane, d, k, c] =>
+    match n.toNat?, lane.toNat?, d.toNat?, k.toNat?, c.toNat? with
+    | some n, some lane, some d, some k, some c => some (toString (chainProbe n lane (d % 256) (n2b k) (n2b c)))
+    | _, _, _, _, _ => none
+  | ["kd", x, y] =>
+    match x.toNat?, y.toNat? with
+    | some x, some y => some s!"{symK x y} {symD x y}"
+    | _, _ => none
+  | ["disparity", w, n] =>
+    match w.toNat?, n.toNat? with
+    | some w, some n => some (toString (disparity w n))
+    | _, _ => none
+  | "revflip" :: nbits :: rest =>
+    match nbits.toNat?, rest.mapM String.toNat? with
+    | some nbits, some xs =>
+      let ps := pairUpN xs
+      some (match reverseTableFlip (ps.map (·.1)) (ps.map (·.2)) nbits with
+            | some t => showNats t
+            | none => "err")
+    | _, _ => none
+  | "revtab" :: nbits :: rest =>
+    match nbits.toNat?, rest.mapM String.toNat? with
+    | some nbits, some xs => some (match reverseTable xs nbits with | some t => showNats t | none => "err")
+    | _, _ => none
+  | ["iscode", w] => w.toNat?.map fun w => toString (b2n (isCodeWord w))
+  | ["chaintab", n] => n.toNat?.map fun n => showNats (chainProbeTable n)
+  | "commas" :: disp :: rest =>
+    match disp.toNat?, rest.mapM String.toNat? with
+    | some disp, some xs => let ps := commaPositions (serial (encodeSeq (n2b disp) (pairUp xs)))
+      some (showNats (ps.length :: ps))
+    | _, _ => none
   | ["enc1", d, k, disp, lsb] =>
     match d.toNat?, k.toNat?, disp.toNat?, lsb.toNat? with
     | some d, some k, some disp, some lsb =>
